@@ -107,8 +107,15 @@ Section InvA.
     | PDone n => exists r, srec h s r /\ after g (r_next (grec g n)) r
     end.
 
+  (** the record a scan stands at is on the thread list *)
+  Definition pos_ok (g : G) (p : pos) : Prop :=
+    match p with
+    | PStart | PNode None => True
+    | PNode (Some n) | PInit n _ | PChain n _ _ | PDone n => after g (tlist g) n
+    end.
+
   Definition scan_ok (g : G) (h : H) (ss : sstate) : Prop :=
-    ss_s0 ss < hlen h /\
+    ss_s0 ss < hlen h /\ pos_ok g (ss_pos ss) /\
     (forall s w, In s (ss_seen ss) -> lastw h s = Some w -> w < ss_s0 ss -> slotv h s <> 0 -> In (slotv h s) (ss_pl ss)) /\
     (forall s k, live c h s k -> k < ss_s0 ss -> In s (ss_seen ss) \/ ahead g h (ss_pos ss) s).
 
@@ -235,8 +242,10 @@ Section Quiet.
 
   Lemma scan_ok_quiet g g' h h' ss : piA g g' -> hA h h' -> scan_ok c g h ss -> scan_ok c g' h' ss.
   Proof.
-    intros P Hh (S1 & S2 & S3). pose proof Hh as (B1&B3&B4&B5&B6&B7). unfold scan_ok.
+    intros P Hh (S1 & S0 & S2 & S3). pose proof Hh as (B1&B3&B4&B5&B6&B7). unfold scan_ok.
     split; [lia|]. split.
+    { pose proof P as (A1&_). destruct (ss_pos ss) as [|[n|]|n j|n o j|n]; cbn in *; auto; rewrite A1; eapply after_piA; eauto. }
+    split.
     - intros s w Hs Hw Hlt Hv. destruct (B1 s) as [(E1&E2)|(w' & E1 & E2)].
       + rewrite E1 in *. rewrite E2 in Hw. eauto.
       + rewrite E1 in Hw. inversion Hw; subst. lia.
